@@ -91,21 +91,16 @@ func (rule *RuleJobNeeds) VisitJobPre(n *Job) error {
 // VisitWorkflowPost is callback when visiting Workflow node after visiting its children.
 func (rule *RuleJobNeeds) VisitWorkflowPost(n *Workflow) error {
 	// Resolve nodes
-	valid := true
 	for id, node := range rule.nodes {
 		node.resolved = make([]*jobNode, 0, len(node.needs))
 		for _, dep := range node.needs {
 			n, ok := rule.nodes[dep]
 			if !ok {
 				rule.Errorf(node.pos, "job %q needs job %q which does not exist in this workflow", id, dep)
-				valid = false
-				continue
+				continue // The edge is ignored on detecting cycles
 			}
 			node.resolved = append(node.resolved, n)
 		}
-	}
-	if !valid {
-		return nil
 	}
 
 	// Note: Only the first cycle can be detected even if there are multiple cycles in "needs:" configurations.
